@@ -553,6 +553,100 @@ func scenarioAcceptBacklog(sc int) {
 	w.Ev("end", "sc", sc, "created", N+1)
 }
 
+// scenarioStraggler: the ACCEPTOR closes first, the opener closes in response and at once opens the next tube (the
+// pattern of TCP port forwarding); a delayed duplicate of a data frame of the old tube arrives afterwards.  The next
+// tube must carry only its own bytes, whatever id it got.
+func scenarioStraggler(sc int, delay time.Duration) {
+	var oldID atomic.Int32
+	oldID.Store(-1)
+	policy := func(f *scriptconn.Frame) scriptconn.Action {
+		if f.Dir == 0 && f.REL && f.Kind() == "data" && f.FrameNo == 1 && f.Nth == 1 && int32(f.Tube) == oldID.Load() && !stragglerSent(sc) {
+			return scriptconn.Action{Dups: 1, DupDelay: delay}
+		}
+		return scriptconn.Action{}
+	}
+	_, ma, mb := newPair(policy)
+	w.Ev("reset", "sc", sc, "name", "straggler-after-passive-close")
+	r1, err := ma.CreateReliableTube(71)
+	if err != nil {
+		return
+	}
+	oldID.Store(int32(r1.GetID()))
+	t1, err := mb.Accept()
+	if err != nil {
+		return
+	}
+	b1 := t1.(*tubes.Reliable)
+	instOld := instCtr.Add(1)
+	w.Ev("create", "sc", sc, "end", "A", "id", r1.GetID(), "type", 71, "inst", instOld, "clash", "no")
+	r1.Write(tagBytes(instOld, 70))
+	buf := make([]byte, 4096)
+	b1.SetReadDeadline(time.Now().Add(3 * time.Second))
+	n1, _ := io.ReadAtLeast(b1, buf, 70)
+	w.Ev("accept", "sc", sc, "end", "B", "id", b1.GetID(), "rel", "yes", "type", 71, "inst", instOld, "pure", yn(n1 >= 70 && bytes.Equal(buf[:70], tagBytes(instOld, 70)[:70])), "bytes", n1)
+	b1.Close() // the acceptor closes first
+	r1.SetReadDeadline(time.Now().Add(3 * time.Second))
+	io.ReadAll(r1)
+	r1.Close()
+	waitClosed(r1, 4*time.Second)
+	// the next tube, at once
+	r2, err := ma.CreateReliableTube(72)
+	if err != nil {
+		return
+	}
+	instNew := instCtr.Add(1)
+	w.Ev("create", "sc", sc, "end", "A", "id", r2.GetID(), "type", 72, "inst", instNew, "clash", "no")
+	w.Ev("note", "sc", sc, "what", fmt.Sprintf("old tube id %d, next tube id %d", r1.GetID(), r2.GetID()))
+	time.Sleep(delay + 50*time.Millisecond) // the straggler is in by now
+	r2.Write(tagBytes(instNew, 70))
+	r2.Close()
+	acc := make(chan tubes.Tube, 1)
+	go func() {
+		if t, err := mb.Accept(); err == nil {
+			acc <- t
+		}
+	}()
+	select {
+	case t2 := <-acc:
+		b2 := t2.(*tubes.Reliable)
+		b2.SetReadDeadline(time.Now().Add(5 * time.Second))
+		all, _ := io.ReadAll(b2)
+		b2.Close()
+		inst, pure := int64(0), true
+		for off := 0; off+7 <= len(all); off += 7 {
+			v, err := strconv.ParseInt(string(all[off:off+6]), 10, 64)
+			if err != nil || all[off+6] != '|' {
+				pure = false
+				break
+			}
+			if inst == 0 {
+				inst = v
+			} else if v != inst {
+				pure = false
+			}
+		}
+		w.Ev("accept", "sc", sc, "end", "B", "id", b2.GetID(), "rel", "yes", "type", byte(b2.Type()), "inst", inst, "pure", yn(pure && len(all) >= 70), "bytes", len(all))
+	case <-time.After(6 * time.Second):
+		w.Ev("offered", "sc", sc, "inst", instNew, "times", 0, "what", "next tube after a passive close")
+	}
+	go ma.Stop()
+	go mb.Stop()
+	w.Ev("end", "sc", sc, "created", 2)
+}
+
+var stragglerMu sync.Mutex
+var stragglerDone = map[int]bool{}
+
+func stragglerSent(sc int) bool {
+	stragglerMu.Lock()
+	defer stragglerMu.Unlock()
+	if stragglerDone[sc] {
+		return true
+	}
+	stragglerDone[sc] = true
+	return false
+}
+
 // scenarioSameNumber: a reliable and an unreliable tube with the same number; the reliable one is closed on both
 // sides and reaped; the unreliable one must go on working, and a second unreliable tube must get another id.
 func scenarioSameNumber(sc int) {
@@ -706,6 +800,10 @@ func main() {
 	launch(func(sc int) { scenarioStray(sc, 1200*time.Millisecond) })
 	launch(scenarioAcceptBacklog)
 	launch(scenarioSameNumber)
+	for _, d := range []time.Duration{120 * time.Millisecond, 400 * time.Millisecond} {
+		d := d
+		launch(func(sc int) { scenarioStraggler(sc, d) })
+	}
 	for _, idle := range []time.Duration{0, 1200 * time.Millisecond, 2500 * time.Millisecond} {
 		for _, gap := range []time.Duration{1700 * time.Millisecond, 2500 * time.Millisecond} {
 			idle, gap := idle, gap
